@@ -1024,25 +1024,47 @@ func c18r10(p *Prog, r *Reporter) {
 							}
 						}
 					}
-					if mk == nil || mk.Common().StaticCallee() == nil || cname(mk.Common().StaticCallee()) != "NewRelationFilter" {
+					var innerV, targetV ssa.Value
+					if mk != nil && mk.Common().StaticCallee() != nil && cname(mk.Common().StaticCallee()) == "NewRelationFilter" {
+						innerV, targetV = mk.Common().Args[0], mk.Common().Args[1]
+					} else if al, ok := s2.Val.(*ssa.Alloc); ok {
+						// &ecs.RelationFilter{Filter: …, Target: …}: the constructor written out as a literal
+						for _, ref := range *al.Referrers() {
+							fa, ok := ref.(*ssa.FieldAddr)
+							if !ok || typeName(fa.X.Type()) != "RelationFilter" {
+								continue
+							}
+							for _, r2 := range *fa.Referrers() {
+								if s3, ok := r2.(*ssa.Store); ok && s3.Addr == ssa.Value(fa) {
+									switch fieldName(fa.X.Type(), fa.Field) {
+									case "Filter":
+										innerV = s3.Val
+									case "Target":
+										targetV = s3.Val
+									}
+								}
+							}
+						}
+					}
+					if innerV == nil || targetV == nil {
 						bad = "the relation filter is assigned something other than NewRelationFilter(...)"
 						continue
 					}
-					ik, _ := classify(mk.Common().Args[0])
-					tgt, isP := mk.Common().Args[1].(*ssa.Parameter)
+					ik, _ := classify(innerV)
+					tgt, isP := targetV.(*ssa.Parameter)
 					switch {
 					case !isP || tgt.Name() != "target":
-						bad = "the relation filter's target is " + apath(mk.Common().Args[1]) + ", not the `target` argument"
+						bad = "the relation filter's target is " + apath(targetV) + ", not the `target` argument"
 					case ik == "A":
 						good = "NewRelationFilter(&maskFilter, target): include, exclude and target clauses all present"
 					case ik == "B":
-						if why := noExcl(mk); why != "" {
+						if why := noExcl(s2); why != "" {
 							bad = "the relation filter wraps the include mask alone, but " + why + ": Without/Exclusive would be ignored for fixed targets"
 						} else {
 							good = "NewRelationFilter(include, target) where the exclude mask is zero"
 						}
 					default:
-						bad = "the relation filter wraps " + apath(mk.Common().Args[0]) + ", which is neither the mask filter nor its include mask"
+						bad = "the relation filter wraps " + apath(innerV) + ", which is neither the mask filter nor its include mask"
 					}
 				}
 				if bad != "" {
